@@ -93,7 +93,11 @@ func init() {
 	})
 	register(&Prop{
 		ID: "C07",
-		Rules: []*Rule{rHide, rHideKeep, rBarrierCtor, rWrapDual, rErrRefs, rFormatArg, rSecondaryAttach, scoped(rRegType, "the barrier and secondary-error types", func(_ *core.Ctx, k string) bool { return containsAny(k, "barriers.", "secondary.") }), {Name: "R-CODEC", Doc: rCodec.Doc + " (restricted to the barrier and secondary-error types)", Run: func(c *core.Ctx) { runCodec(c, func(cp *codecPair) bool { return containsAny(cp.Name, "barriers.", "secondary.") }) }}, {Name: "R-TAINT/redactable", Doc: "the hidden message of a barrier is carried as a redactable string: conversions to redact.RedactableString in package barriers (and what its decoders receive) only from strings that were built as redactable - a plain string relabelled as redactable, or a redactable one escaped again, changes the message text after a hop", Run: func(c *core.Ctx) { runTaintFiltered(c, func(s *Sink) bool { return s.Mode == "redactable" && strings.Contains(s.Name, "barriers.") }) }}, scoped(rAlwaysWraps, "the barrier and secondary-error constructors", func(_ *core.Ctx, k string) bool {
+		Rules: []*Rule{rHide, rHideKeep, rBarrierCtor, rWrapDual, rErrRefs, rFormatArg, rSecondaryAttach, scoped(rRegType, "the barrier and secondary-error types", func(_ *core.Ctx, k string) bool { return containsAny(k, "barriers.", "secondary.") }), {Name: "R-CODEC", Doc: rCodec.Doc + " (restricted to the barrier and secondary-error types)", Run: func(c *core.Ctx) {
+			runCodec(c, func(cp *codecPair) bool { return containsAny(cp.Name, "barriers.", "secondary.") })
+		}}, {Name: "R-TAINT/redactable", Doc: "the hidden message of a barrier is carried as a redactable string: conversions to redact.RedactableString in package barriers (and what its decoders receive) only from strings that were built as redactable - a plain string relabelled as redactable, or a redactable one escaped again, changes the message text after a hop", Run: func(c *core.Ctx) {
+			runTaintFiltered(c, func(s *Sink) bool { return s.Mode == "redactable" && strings.Contains(s.Name, "barriers.") })
+		}}, scoped(rAlwaysWraps, "the barrier and secondary-error constructors", func(_ *core.Ctx, k string) bool {
 			return containsAny(k, "Handled", "Opaque", "CombineErrors", "WithSecondaryError", "AssertionFailure", "AssertionError")
 		})},
 		Explain: "Decides, for all compositions and after decoding (decoders rebuild the same types; opaque fallbacks keep the payload inside an Any), that the error stored behind a barrier or as a secondary error cannot reach any Return, call, comparison or store other than printing, encoding and the safe-details walk (so no Unwrap/Cause/Is/As/accessor can see it); that it stays printed in %+v and folded into SafeDetails(); that every constructor which hides a parameter never also exposes it; and that Cause()/Unwrap() of every wrapper return the same, visible, field. " +
@@ -129,7 +133,9 @@ func init() {
 		ID: "C13",
 		Rules: []*Rule{rWalkMulti, rTreeRec, scoped(rOpaque, "the causes of multi-cause nodes", func(_ *core.Ctx, k string) bool {
 			return containsAny(k, "causes", "MultierrorCauses", "opaqueLeafCauses")
-		}), rOwnedBranches, rLoopAlias, rJoinNode, rDecodeNonNil, scoped(rProtocol, "multi-cause errors are leaves for UnwrapOnce", func(_ *core.Ctx, k string) bool { return containsAny(k, "UnwrapOnce", "UnwrapMulti", "Unwrap() []error") }), scoped(rShape, "the multi-cause types: Error() and the formatter render the same, live, branch texts", func(_ *core.Ctx, k string) bool { return containsAny(k, "join", "Causes") }), scoped(rFmtDelegate, "the multi-cause types (their own Format must hand the whole node to the dispatcher)", func(_ *core.Ctx, k string) bool { return containsAny(k, "opaqueLeafCauses", "joinError", "Causes") }), {Name: "R-LOOP-EXITS", Doc: rLoopExits.Doc, Run: func(c *core.Ctx) {
+		}), rOwnedBranches, rLoopAlias, rJoinNode, rDecodeNonNil, scoped(rProtocol, "multi-cause errors are leaves for UnwrapOnce", func(_ *core.Ctx, k string) bool {
+			return containsAny(k, "UnwrapOnce", "UnwrapMulti", "Unwrap() []error")
+		}), scoped(rShape, "the multi-cause types: Error() and the formatter render the same, live, branch texts", func(_ *core.Ctx, k string) bool { return containsAny(k, "join", "Causes") }), scoped(rFmtDelegate, "the multi-cause types (their own Format must hand the whole node to the dispatcher)", func(_ *core.Ctx, k string) bool { return containsAny(k, "opaqueLeafCauses", "joinError", "Causes") }), {Name: "R-LOOP-EXITS", Doc: rLoopExits.Doc, Run: func(c *core.Ctx) {
 			runLoopExits(c, map[string]bool{"markers.Is": true, "markers.IsAny": true, "report.visitAllMulti": true})
 		}}},
 		Explain: "Decides that every tree walker (Is, IsAny, As, formatter, report visitor, encoder) applies itself to each branch of every chain node's UnwrapMulti in forward order, and that multi-cause types are leaves for Unwrap/UnwrapOnce. " +
@@ -155,7 +161,9 @@ func init() {
 	})
 	register(&Prop{
 		ID: "C16",
-		Rules: []*Rule{rDepth, rMemo, rFuncName, rStackWhole, scoped(rAlwaysWraps, "the stack-capturing constructors: a stack is captured at every call, never skipped because of what the error already carries", func(_ *core.Ctx, k string) bool { return containsAny(k, "WithStack", "Wrap", "AssertionFail", "AssertionError", "HandleAsAssertion") }), scoped(rBarrierCtor, "the assertion-failure constructors", func(_ *core.Ctx, k string) bool { return containsAny(k, "Assertion") }), scoped(rStackEmpty, "the one-line source parser", func(_ *core.Ctx, k string) bool { return strings.Contains(k, "getOneLineSourceFromPrintedStack") }), rOrderOneLine, scoped(rOneParser, "GetOneLineSource", func(_ *core.Ctx, k string) bool {
+		Rules: []*Rule{rDepth, rMemo, rFuncName, rStackWhole, scoped(rAlwaysWraps, "the stack-capturing constructors: a stack is captured at every call, never skipped because of what the error already carries", func(_ *core.Ctx, k string) bool {
+			return containsAny(k, "WithStack", "Wrap", "AssertionFail", "AssertionError", "HandleAsAssertion")
+		}), scoped(rBarrierCtor, "the assertion-failure constructors", func(_ *core.Ctx, k string) bool { return containsAny(k, "Assertion") }), scoped(rStackEmpty, "the one-line source parser", func(_ *core.Ctx, k string) bool { return strings.Contains(k, "getOneLineSourceFromPrintedStack") }), rOrderOneLine, scoped(rOneParser, "GetOneLineSource", func(_ *core.Ctx, k string) bool {
 			return containsAny(k, "GetOneLineSource", "getOneLineSourceFromPkgStack")
 		})},
 		Explain: "Decides the depth arithmetic of every exported stack-capturing or domain-computing function of the root package, errutil, withstack and domains, for ALL depths and all forwarding paths at once (affine equation S = 1 [+ depth]). " +
